@@ -99,6 +99,10 @@ class Runner:
         kw = dict(num_envs=cls["n"], num_steps=cls["T"], gamma=jnp.array(0.9))
         if cls["algo"] != "REINFORCE":
             kw["gae_lambda"] = jnp.array(0.9)
+        self.static_hp = cls.get("static_hp")
+        if self.static_hp:
+            kw["gamma"] = float(self.static_hp["gamma"])
+            kw["gae_lambda"] = float(self.static_hp["lam"])
         algo = Algo(**kw)
         if cls["algo"] == "REINFORCE":
             algo = eqx.tree_at(lambda a: a.gae_lambda, algo, jnp.array(1.0))
@@ -139,6 +143,8 @@ class Runner:
         lam = rng.choice([0.0, 1.0, 0.5, 0.9, 0.95])
         if cls["algo"] == "REINFORCE":
             lam = 1.0
+        if cls.get("static_hp"):
+            gamma, lam = float(cls["static_hp"]["gamma"]), float(cls["static_hp"]["lam"])
         plan = {
             "scenario": NAME,
             "cls": cls,
@@ -176,7 +182,10 @@ class Runner:
         env = replace_inner(self.env0, inner)
         env = set_time_limit(env, int(kn["time_limit"]))
         policy = with_policy_tables(self.policy0, plan["policy"])
-        algo = eqx.tree_at(lambda a: (a.gamma, a.gae_lambda), self.algo0, (jnp.array(kn["gamma"], dtype=float), jnp.array(kn["lam"], dtype=float)))
+        if self.static_hp:
+            algo = self.algo0  # Python-float hyper-parameters stay as constructed
+        else:
+            algo = eqx.tree_at(lambda a: (a.gamma, a.gae_lambda), self.algo0, (jnp.array(kn["gamma"], dtype=float), jnp.array(kn["lam"], dtype=float)))
         cb = eqx.tree_at(lambda c: c.inner.alpha, self.cb_log if getattr(self, "_want_log", False) else self.cb0, jnp.array(kn["alpha"], dtype=float))
         return env, policy, algo, cb
 
